@@ -108,3 +108,83 @@ func GenName(t *simrt.Tape) (value, class string) {
 	}
 	return GreyNames[t.Draw(len(GreyNames))], NameGrey
 }
+
+// GenMultiDiag draws a small specification that is rejected with SEVERAL simultaneous diagnostics:
+// token names and values are drawn from tiny pools so that duplicate names, duplicate values
+// (between named tokens and between a named token and a literal used in a rule), overlapping
+// patterns, unknown predefined names and undefined tokens occur together, in a drawn order of
+// declarations (a diagnostic cannot be reordered unless there are at least two of them).
+func GenMultiDiag(t *simrt.Tape) string {
+	names := []string{"AA", "BB", "CC", "DD", "EE"}
+	strs := []string{`"v"`, `"w"`, `"+"`, `"kw"`}
+	res := []string{`/[a-z]+/`, `/[a-c]+/`, `/[0-9]+/`, `/[0-5]+/`, `/ab*/`, `/a+/`, `/[z-a]/`, `/a{3,1}/`}
+	pre := []string{"$ID", "$NUMBER", "$NOPE", "$ALSO_NOPE", "$WS"}
+	var decls []string
+	n := 3 + t.Draw(6)
+	for i := 0; i < n; i++ {
+		nm := names[t.Draw(len(names))]
+		switch t.Draw(3) {
+		case 0:
+			decls = append(decls, nm+" = "+strs[t.Draw(len(strs))]+";")
+		case 1:
+			decls = append(decls, nm+" = "+res[t.Draw(len(res))]+";")
+		default:
+			decls = append(decls, nm+" = "+pre[t.Draw(len(pre))]+";")
+		}
+	}
+	var items []string
+	m := 2 + t.Draw(5)
+	for i := 0; i < m; i++ {
+		switch t.Draw(3) {
+		case 0:
+			items = append(items, names[t.Draw(len(names))])
+		case 1:
+			items = append(items, []string{"U1", "U2", "U3", "U4"}[t.Draw(4)])
+		default:
+			items = append(items, strs[t.Draw(len(strs))])
+		}
+	}
+	rule := "start = " + strings.Join(items, " ") + ";"
+	if t.Chance(1, 4) {
+		rule = "rule = " + strings.Join(items, " ") + ";" // missing start symbol as well
+	}
+	at := t.Draw(len(decls) + 1)
+	all := append(append(append([]string{}, decls[:at]...), rule), decls[at:]...)
+	return "grammar md;\n" + strings.Join(all, "\n") + "\n"
+}
+
+// GenLargeSpec draws a valid specification with many rules (well over 1024 significant tokens
+// for nRules >= 150), as a token list.
+func GenLargeSpec(t *simrt.Tape, nRules int) *Spec {
+	var b strings.Builder
+	b.WriteString("grammar big;\nNUM = /[0-9]+/;\nID = /[a-z]+/;\n")
+	b.WriteString("start = r0")
+	for i := 1; i < nRules; i += 1 + t.Draw(3) {
+		fmt.Fprintf(&b, " | r%d", i)
+	}
+	b.WriteString(";\n")
+	lits := []string{`"+"`, `"-"`, `"("`, `")"`, `"if"`, `","`, `"="`}
+	for i := 0; i < nRules; i++ {
+		fmt.Fprintf(&b, "r%d =", i)
+		k := 2 + t.Draw(5)
+		for j := 0; j < k; j++ {
+			switch t.Draw(5) {
+			case 0:
+				b.WriteString(" NUM")
+			case 1:
+				b.WriteString(" ID")
+			case 2:
+				fmt.Fprintf(&b, " r%d", t.Draw(nRules))
+			case 3:
+				if j > 0 {
+					b.WriteString(" |")
+				}
+				b.WriteString(" " + lits[t.Draw(len(lits))])
+			default:
+				b.WriteString(" " + lits[t.Draw(len(lits))])
+			}
+		}
+		b.WriteString(";\n")
+	}
+	return SpecFromText([]byte(b.String()))
+}
